@@ -16,8 +16,8 @@ type VerifSocket struct {
 }
 
 func (v *VerifSocket) open(iface string, etherType uint16) error { return nil }
-func (v *VerifSocket) close() error                               { return nil }
-func (v *VerifSocket) recv(buf []byte) (int, error)               { select {} }
+func (v *VerifSocket) close() error                              { return nil }
+func (v *VerifSocket) recv(buf []byte) (int, error)              { select {} }
 func (v *VerifSocket) send(iface string, dstMAC net.HardwareAddr, etherType uint16, data []byte) error {
 	v.mu.Lock()
 	defer v.mu.Unlock()
